@@ -588,7 +588,12 @@ Definition src_testcases_TestcaseSymbol_copy : string := "def copy(self) -> 'Tes
 Definition src_testcases_TestcaseSymbol_set_cut_chars : string := "def set_cut_chars(self, before: bytes, after: bytes) -> None:
     before = re.escape(before)
     after = re.escape(after)
-    self._cutter = re.compile(b'[' + before + b']?' + b'[^' + before + after + b']*' + b'(?:[' + after + b']|$|(?=[' + before + b']))')"%string.
+    ends = [b'$']
+    if after:
+        ends.insert(0, b'[' + after + b']')
+    if before:
+        ends.append(b'(?=[' + before + b'])')
+    self._cutter = re.compile((b'[' + before + b']?' if before else b'') + (b'[^' + before + after + b']*' if before or after else b'(?s:.)*') + b'(?:' + b'|'.join(ends) + b')')"%string.
 Definition src_testcases_TestcaseSymbol_split_parts : string := "def split_parts(self, data: bytes) -> None:
     assert self._cutter is not None
     for statement in self._cutter.finditer(data):
